@@ -53,6 +53,10 @@ func newUnmatched(pos int, vt *rt.GoType) error {
 }
 
 func error_field(name string) error {
+	/* the key comes from the input: quote a bounded piece of it */
+	if len(name) > 256 {
+		name = name[:256] + "..."
+	}
 	return errors.New("json: unknown field " + strconv.Quote(name))
 }
 
